@@ -419,6 +419,7 @@ impl DbPool {
 
         if new_owner != owner {
             std::fs::create_dir_all(Path::new(&self.config.data_dir).join(new_owner))?;
+            std::fs::create_dir_all(db_audit_dir(new_owner, &self.config))?;
         }
 
         let source_db = DbName::new(owner, db);
